@@ -16,6 +16,7 @@ Python source on every run into Gallina terms, and coqc proves that Model/Nnls.v
                     the matrices inside the two norm tests (Model/NnlsAdmm.v admm_body / admm_stop; entry lemmas in Proofs/NnlsProofsAdmmLoop.v)
   hals_callback_exact   `if exact:` sets (50000, 1e-16); the callback block sits after the row loop and before the reference / rule (= hals_loop_cb)
   admm_order_default    `if order is None: order = 0` before the loop (repaired code a5b9e5b) = admm ... None = admm ... (Some 0)
+  admm_zero_iterations  `x_split = tl.transpose(x)` before the loop (repaired code fe4edf7) = admm ... 0 tol returns (x, x^T, dual_var)
   fista_momentum    momentum_old = 1.0; momentum = (1 + sqrt(1 + 4 momentum_old**2)) / 2 = Model/NnlsMomentum.v momentum_next; momentum_old = momentum
 (the structural parts of the last four are matched as ast patterns; their arithmetic is translated; all end in coqc goals about the model)
 Fail closed: a construct the translator does not know is a broken tie."""
@@ -876,6 +877,25 @@ def tie_admm_order(tree):
             "Proof. intros. reflexivity. Qed.\n")
 
 
+def tie_admm_zero(tree):
+    """admm: x_split is bound before the loop (the line added by /repo fe4edf7) and the function ends with `return x, x_split, dual_var`:
+    with n_iter_max = 0 the model returns (x, <that value>, dual_var)"""
+    fn = _func(tree, "admm")
+    lp = _for_over(fn.body, "iteration")
+    pre = [s for s in fn.body[:fn.body.index(lp)] if isinstance(s, ast.Assign) and len(s.targets) == 1 and isinstance(s.targets[0], ast.Name)
+           and s.targets[0].id in ("x_split", "x", "dual_var")]
+    if [s.targets[0].id for s in pre] != ["x_split"]:
+        raise Untranslatable("before the loop: exactly one assignment to x_split and none to x / dual_var")
+    m = Mat({"x": ("M", "x", "m", "r"), "dual_var": ("M", "dual", "m", "r"), "UtM": ("M", "UtM", "m", "r"), "UtU": ("M", "UtU", "r", "r")}, None)
+    v = m.expr(pre[0].value)
+    if v[0] != "M":
+        raise Untranslatable("x_split before the loop is not a matrix expression")
+    return ("From TLV Require Import Model.NnlsAdmm.\n"
+            "Goal forall (solve : mat -> mat -> mat) (n_const order : option nat) (k : @constr R) (UtM UtU x dual : mat) (m r : nat) (tol : R),\n"
+            f"  admm Rops solve n_const order k UtM UtU x dual m r 0 tol = Ok (x, {v[1]}, dual).\n"
+            "Proof. intros. reflexivity. Qed.\n")
+
+
 def tie_admm_loop(tree):
     """admm, n_const not None: the loop body and the stopping rule, ENTRYWISE.  The loop body is executed symbolically (Entry: temporaries,
     re-association and other ring-equal rewrites pass); tl.solve's answer and proximal_operator's answer are atoms (matrices xs, xn of the
@@ -988,7 +1008,7 @@ def ties(nnls_src, admm_src):
                           ("admm_none", tie_admm_none, t2), ("hals_error_nonzero_rows", tie_hals_err_nz, t1), ("fista_entry", tie_fista_entry, t1),
                           ("admm_x_split", tie_admm_split, t2), ("aset_selection_termination", tie_aset_tests, t1),
                           ("admm_loop_body_stop", tie_admm_loop, t2), ("fista_momentum", tie_fista_momentum, t1), ("hals_callback_exact", tie_hals_callback, t1),
-                          ("admm_order_default", tie_admm_order, t2)):
+                          ("admm_order_default", tie_admm_order, t2), ("admm_zero_iterations", tie_admm_zero, t2)):
         try:
             out.append((name, f(tree), None))
         except (Untranslatable, KeyError, IndexError, AttributeError, TypeError) as e:
